@@ -234,7 +234,7 @@ def _shard_task(modname, subname, tier, seed, shard, nshards, budget_s):
           'timed_out': False}
 
     def account(case, info):
-        st['evals'] += 1
+        st['evals'] += info.get('evals', 1)   # a block case reports how many inputs it evaluated
         if info.get('nt', True):
             d = digest(case)
             if d not in st['nt']:
